@@ -39,6 +39,9 @@ out += [e for e in dfaops_replay.replay_line(line) if e["op"] == "sched_replay"]
 from harness.props import c16
 out += list(c16._events({"kind": "pda_rnd", "seed": 5, "eps": "e"}))[:1]
 out += list(c16._events({"kind": "tm_rnd", "seed": 7}))[:1]
+from harness.props import c15
+out += [e for e in c15.cfg_events({"kind": "cfg_rules", "rules": [["S", "AB"], ["S", "AA"], ["A", "a"], ["B", "b"], ["A", "AB"]]}, 3)
+        if e["op"] == "derive" and len(e["seq"]) >= 4][:2]
 from harness import parser_replay
 pl = {"kind": "tm", "lines": [{"k": "initial", "t": ["p"]}, {"k": "kw", "t": ["accept", "x-1"]},
       {"k": "tr", "t": ["p", "p", ["ok", False, "a", "B", "R"]]}], "err": "bad_state_label", "result": {"Q": []}}
@@ -96,6 +99,8 @@ def corrupt(e):
         if not tr:
             return None
         del c["plines"][tr[-1]]              # the printer forgot one edge line
+    elif op == "derive":
+        c["seq"][1], c["seq"][2] = c["seq"][2], c["seq"][1]        # two sentential forms exchanged
     elif op == "parser_replay":
         c["exc"] = "none"                    # the parser accepted what the model rejects
     elif op == "iso":
